@@ -1,6 +1,7 @@
 import Fabio.Driver.Proto
 import Fabio.Model.C13
 import Fabio.Model.C13Glue
+import Fabio.Model.C13Parse
 import Fabio.Model.C13Table
 namespace Fabio.Driver.C13
 open Lean Fabio.Driver Fabio.Model Fabio.Model.C13
@@ -58,7 +59,8 @@ def getO (j : Json) (k : String) : Json := (j.getObjVal? k).toOption.getD Json.n
 def targetOf (j : Json) : Except String RTarget := do
   let p ← getHex j "pathhex"
   let rp ← getHex j "rawpathhex"
-  return { url := { scheme := getS j "scheme", host := getS j "host", path := p, rawPath := rp, rawQuery := getS j "rawquery" },
+  let hh ← getHex j "hosthex"
+  return { url := { scheme := getS j "scheme", host := if hh.isEmpty then getS j "host" else hh, path := p, rawPath := rp, rawQuery := getS j "rawquery" },
            strip := getS j "strip", prepend := getS j "prepend", code := getI j "code" }
 
 def urlJson (u : URL) : Json :=
@@ -68,7 +70,8 @@ def urlJson (u : URL) : Json :=
 def urlOfDump (j : Json) : Except String URL := do
   let p ← getHex j "pathhex"
   let r ← getHex j "rawpathhex"
-  return { scheme := getS j "scheme", host := getS j "host", path := p, rawPath := r, rawQuery := getS j "rawquery" }
+  let hh ← getHex j "hosthex"
+  return { scheme := getS j "scheme", host := if hh.isEmpty then getS j "host" else hh, path := p, rawPath := r, rawQuery := getS j "rawquery" }
 
 /-- `url.ParseRequestURI` accepts the origin form only when it starts with `/` and holds no control byte -/
 def targetOK (t : Str) : Bool := t.head? == some 47 && t.all (fun c => c ≥ 32 && c != 127)
@@ -106,40 +109,40 @@ def findingClasses : List String := ["strip-encoding-mismatch", "self-redirect-a
 
 /-! ### c13.build -/
 
-def buildH : Handler := fun inp impl => do
+def buildCore (inp impl : Json) : Except String Verdict := do
   let err := (impl.getObjValAs? String "err").toOption.getD ""
   let redirectOpt := getS inp "redirect"
   let host := getS inp "host"
   let target := getS inp "target"
   if err == "route" then
     -- the route command was rejected (template does not parse): nothing is served
-    return ({ model := Json.mkObj [("err", "route")], agree := true, spec := true, nontrivial := false, tag := "route-rejected" } : Verdict).toJson
+    return ({ model := Json.mkObj [("err", "route")], agree := true, spec := true, nontrivial := false, tag := "route-rejected" } : Verdict)
   let t ← targetOf (getO impl "t")
   let mcode := redirectCode redirectOpt
   if (impl.getObjValAs? String "panic").isOk then
     return ({ model := Json.mkObj [("code", mcode)], agree := false, spec := false, nontrivial := true,
-              tag := if codeSpec t.code then "panic" else "code-not-3xx" } : Verdict).toJson
+              tag := if codeSpec t.code then "panic" else "code-not-3xx" } : Verdict)
   let okOpts := t.strip == getS inp "strip" && t.prepend == getS inp "prepend"
   -- "receives the configured 3xx status": 0 or 3xx, and exactly the plain decimal reading of the option text
   let codeOK := codeSpec t.code && codeSpecOpt redirectOpt t.code
   if !codeOK || t.code != mcode then
     return ({ model := Json.mkObj [("code", mcode)], agree := t.code == mcode, spec := codeOK, nontrivial := true,
-              tag := if codeOK then "code" else if codeSpec t.code then "code-not-configured" else "code-not-3xx" } : Verdict).toJson
+              tag := if codeOK then "code" else if codeSpec t.code then "code-not-configured" else "code-not-3xx" } : Verdict)
   if getB (getO impl "t") "odd" || (tmplParts t).1.isEmpty then
-    return ({ model := Json.null, agree := true, spec := true, nontrivial := false, tag := "odd-template" } : Verdict).toJson
+    return ({ model := Json.null, agree := true, spec := true, nontrivial := false, tag := "odd-template" } : Verdict)
   let mreq := if targetOK target then parseTarget host target else none
   match mreq with
   | none =>
-    return ({ model := Json.mkObj [("err", "request")], agree := err == "request", spec := true, nontrivial := false, tag := "request-rejected" } : Verdict).toJson
+    return ({ model := Json.mkObj [("err", "request")], agree := err == "request", spec := true, nontrivial := false, tag := "request-rejected" } : Verdict)
   | some req =>
     if err == "request" then
-      return ({ model := urlJson req, agree := false, spec := true, nontrivial := false, tag := "request-parse" } : Verdict).toJson
+      return ({ model := urlJson req, agree := false, spec := true, nontrivial := false, tag := "request-parse" } : Verdict)
     let ireq ← urlOfDump (getO impl "req")
     let reqAgree := ireq == req
     if mcode == 0 then
       let noRedirect := getI impl "status" == 0 && getS impl "location" == []
       return ({ model := Json.mkObj [("code", 0)], agree := reqAgree && okOpts && noRedirect, spec := noRedirect, nontrivial := false,
-                tag := "code-0" } : Verdict).toJson
+                tag := "code-0" } : Verdict)
     let u := buildRedirectURL t req
     let loc := hexEscapeNonASCII (urlString u)
     let iu ← urlOfDump (getO impl "u")
@@ -150,7 +153,30 @@ def buildH : Handler := fun inp impl => do
     let tag := classTag t req
     return ({ model := Json.mkObj [("status", mcode), ("location", showB loc), ("u", urlJson u)],
               agree := agree, spec := spec, nontrivial := formTag t != "fixed" || contains vHost t.url.host,
-              tag := tag } : Verdict).toJson
+              tag := tag } : Verdict)
+
+/-- `c13.build` with the template text parsed by the model (`parseTemplate` = `url.Parse` in `addRoute`): the
+record `BuildRedirectURL` reads is no longer taken on trust from the real code. -/
+def buildH : Handler := fun inp impl => do
+  let v ← buildCore inp impl
+  let err := (impl.getObjValAs? String "err").toOption.getD ""
+  let parsed := parseTemplate (getS inp "tmpl")
+  let parseAgree ← match parsed with
+    | .outside => pure true
+    | .error => pure (err == "route")
+    | .ok u => do
+      if err == "route" then pure false else
+      let t ← targetOf (getO impl "t")
+      pure (t.url == u && !getB (getO impl "t") "odd")
+  if parseAgree then
+    let ptag := match parsed with | .outside => "-unparsed-shape" | .error => "-parse-error" | .ok _ => ""
+    return ({ v with tag := if v.tag == "route-rejected" || v.tag == "odd-template" then v.tag ++ ptag else v.tag } : Verdict).toJson
+  else
+    let m := match parsed with
+      | .ok u => Json.mkObj [("parsed", urlJson u)]
+      | .error => Json.mkObj [("parsed", "error")]
+      | .outside => Json.null
+    return ({ v with model := m, agree := false, tag := "template-parse" } : Verdict).toJson
 
 /-! ### c13.url: the `net/url` fragment against `net/url` -/
 
